@@ -153,6 +153,66 @@ class Repo:
                 except SyntaxError as e:
                     raise AnalysisError("E1", os.path.relpath(p, self.root), f"does not parse: {e}")
         self._fold_named_constants()
+        self._positional_calls()
+
+    # ----------------------------------------------------------------------------------------
+    def signature_of(self, func, call):
+        """(callee, parameter names the call's arguments bind to) for a call resolved to a program function: `self` is
+        dropped for bound-method and constructor calls; None when unresolved."""
+        callee = self.resolve_call(func, call)
+        if callee is None:
+            return None
+        params = list(callee.params)
+        static = any(norm(d) == "staticmethod" for d in callee.node.decorator_list)
+        if callee.cls is not None and not static and params and (callee.name == "__init__" or isinstance(call.func, ast.Attribute)):
+            params = params[1:]
+        va = callee.node.args.vararg.arg if callee.node.args.vararg else None
+        kwa = callee.node.args.kwarg.arg if callee.node.args.kwarg else None
+        params = [p_ for p_ in params if p_ not in (va, kwa)]
+        return callee, params
+
+    def bound_args(self, func, call):
+        """parameter name -> argument expression (positional and keyword arguments, then the callee's defaults) of a call
+        resolved to a program function; None when unresolved or when the call uses * / **."""
+        sig = self.signature_of(func, call)
+        if sig is None or any(isinstance(a, ast.Starred) for a in call.args) or any(k.arg is None for k in call.keywords):
+            return None
+        callee, params = sig
+        out = {}
+        for p_, a in zip(params, call.args):
+            out[p_] = a
+        for k in call.keywords:
+            out[k.arg] = k.value
+        a_ = callee.node.args
+        for p_, d in zip(reversed(a_.args), reversed(a_.defaults)):
+            out.setdefault(p_.arg, d)
+        for p_, d in zip(a_.kwonlyargs, a_.kw_defaults):
+            if d is not None:
+                out.setdefault(p_.arg, d)
+        return out
+
+    def _positional_calls(self):
+        """Calls of program functions are written in one canonical way: every leading parameter that is supplied — by
+        position or by keyword — becomes a positional argument (`search(intervals=xs, query_start=a, ...)` reads like
+        `search(xs, a, ...)`); keywords that cannot be moved (a gap before them) stay keywords."""
+        for mod in self.modules.values():
+            for f in mod.funcs.values():
+                for call in [c for c in walk_own(f.node) if isinstance(c, ast.Call)]:
+                    if not call.keywords or any(isinstance(a, ast.Starred) for a in call.args) or any(k.arg is None for k in call.keywords):
+                        continue
+                    sig = self.signature_of(f, call)
+                    if sig is None:
+                        continue
+                    _callee, params = sig
+                    kw = {k.arg: k for k in call.keywords}
+                    args = list(call.args)
+                    i = len(args)
+                    while i < len(params) and params[i] in kw:
+                        args.append(kw.pop(params[i]).value)
+                        i += 1
+                    if len(args) != len(call.args):
+                        call.args = args
+                        call.keywords = [k for k in call.keywords if k.arg in kw]
 
     # ----------------------------------------------------------------------------------------
     def _fold_named_constants(self):
@@ -166,7 +226,7 @@ class Repo:
             for st in ast.walk(mod.tree):
                 for t in ([st.target] if isinstance(st, (ast.AugAssign, ast.AnnAssign, ast.For)) else (st.targets if isinstance(st, ast.Assign) else [])):
                     for x in ast.walk(t):
-                        if isinstance(x, ast.Name):
+                        if isinstance(x, ast.Name) and isinstance(x.ctx, (ast.Store, ast.Del)):
                             counts[x.id] = counts.get(x.id, 0) + 1
             table = {}
             for name, e in mod.consts.items():
@@ -1351,13 +1411,14 @@ def hoist_calls(repo, func):
             if isinstance(st, ast.Try):
                 for h in st.handlers:
                     h.body = block(h.body)
-            if isinstance(st, (ast.Assign, ast.Return, ast.Expr, ast.AugAssign)) and st.value is not None and not isinstance(st.value, ast.Call):
+            if isinstance(st, (ast.Assign, ast.Return, ast.Expr, ast.AugAssign)) and st.value is not None:
                 pre = []
+                top = st.value if isinstance(st.value, ast.Call) else None
 
                 class H(ast.NodeTransformer):
                     def visit_Call(self, node):
                         self.generic_visit(node)
-                        if inlinable(node):
+                        if node is not top and inlinable(node):
                             counter[0] += 1
                             nm = f"hoisted__{counter[0]}"
                             pre.append(ast.copy_location(ast.Assign(targets=[ast.Name(id=nm, ctx=ast.Store())], value=node), st))
@@ -1444,7 +1505,61 @@ def fold_consts(func):
                 return arm if arm else ast.copy_location(ast.Pass(), node)
             return node
 
+    # straight-line propagation of `x = <constant>` into the statements that directly follow it in the same block (the
+    # binding of a defaulted parameter of an inlined helper: `matches = None; matches = matches or rec.x`)
+    class P(ast.NodeTransformer):
+        def __init__(self, env):
+            self.env = env
+
+        def visit_Name(self, node):
+            if isinstance(node.ctx, ast.Load) and node.id in self.env:
+                return ast.copy_location(ast.Constant(value=self.env[node.id]), node)
+            return node
+
+        def visit_BoolOp(self, node):
+            self.generic_visit(node)
+            vals = list(node.values)
+            while len(vals) > 1 and isinstance(vals[0], ast.Constant):
+                v0 = vals[0].value
+                if isinstance(node.op, ast.Or):
+                    if v0:
+                        return vals[0]
+                    vals = vals[1:]
+                else:
+                    if not v0:
+                        return vals[0]
+                    vals = vals[1:]
+            if len(vals) == 1:
+                return vals[0]
+            node.values = vals
+            return node
+
+    def block(stmts):
+        env = {}
+        out = []
+        for st in stmts:
+            for fld in ("body", "orelse", "finalbody"):
+                lst = getattr(st, fld, None)
+                if isinstance(lst, list) and lst and isinstance(lst[0], ast.stmt) and not isinstance(st, (ast.FunctionDef, ast.AsyncFunctionDef, ast.ClassDef)):
+                    setattr(st, fld, block(lst))
+            if isinstance(st, ast.Try):
+                for h in st.handlers:
+                    h.body = block(h.body)
+            simple = isinstance(st, (ast.Assign, ast.Expr, ast.Return, ast.AugAssign))
+            if env and simple and st.value is not None:
+                st.value = P(env).visit(st.value)
+            stored = {x.id for x in ast.walk(st) if isinstance(x, ast.Name) and isinstance(x.ctx, (ast.Store, ast.Del))}
+            for nm in stored:
+                env.pop(nm, None)
+            if not simple:
+                env = {}
+            if isinstance(st, ast.Assign) and len(st.targets) == 1 and isinstance(st.targets[0], ast.Name) and isinstance(st.value, ast.Constant) and (st.value.value is None or isinstance(st.value.value, (bool, int, str))):
+                env[st.targets[0].id] = st.value.value
+            out.append(st)
+        return out
+
     root = F().visit(copy.deepcopy(func.node))
+    root.body = block(root.body)
     if ast.dump(root) == ast.dump(func.node):
         return func
     ast.fix_missing_locations(root)
